@@ -4,6 +4,7 @@
 From Coq Require Import String List Bool Arith.
 Import ListNotations.
 From BT Require Import Model.GenTypes Model.Skel.
+From BT Require RefShapes.
 From BTGen Require ChanOps Lifecycle Dispatch Signals.
 Open Scope string_scope.
 
@@ -47,12 +48,13 @@ Definition guards_of_gen : guards :=
   {| g_batch_send := match ev_cmd_sends with [a; _] => ctx_alt a | l => all_guarded l end;
      g_cmd_send := match ev_cmd_sends with [_; b] => ctx_alt b | l => all_guarded l end;
      g_sig_send := no_bare_send "handleSignals" && calls_send "handleSignals" && send_is_guarded && negb (existsb (fun f => String.prefix "bare-send:" f) facts);
-     g_fin_broadcast := has_scall Lifecycle.shutdown_calls "" "close(p.finished)";
+     g_fin_broadcast := has_scall Lifecycle.shutdown_calls "" "finishOnce.Do:close(p.finished)";
      g_startup_fail_restores :=
        Nat.leb (length (filter (fun r => sr_after_init_terminal r && negb (str_in "p.shutdown" (sr_preceded_by r))) Lifecycle.run_returns)) 1;
-     g_panic_err := str_in "assign:returnErr" Lifecycle.run_recover && str_in "named-results" Lifecycle.run_recover && str_in "fmt.Errorf" Lifecycle.run_recover;
+     g_panic_err := str_in "assign:returnErr" Lifecycle.run_recover && str_in "named-results" Lifecycle.run_recover && str_in "fmt.Errorf" Lifecycle.run_recover &&
+                    str_in "errorf-arg:ErrProgramKilled" Lifecycle.run_recover;
      g_run_defers_cancel := str_in "p.cancel" Signals.run_leading_defers;
-     g_run_defers_finish := str_in "p.finishOnce.Do:close(p.finished)" Signals.run_leading_defers || str_in "close(p.finished)" Signals.run_leading_defers;
+     g_run_defers_finish := str_in "p.finishOnce.Do:close(p.finished)" Signals.run_leading_defers;
      g_rd_err_send := all_guarded (sends_on "readLoop" "p.errs");
      g_rd_msg_send := all_guarded (sends_on "readAnsiInputs" "msgs");
      g_ifw_send := all_guarded (sends_on "Run" "cmds");
@@ -66,10 +68,15 @@ Definition guards_of_gen : guards :=
                                str_in "notify:syscall.SIGINT" facts && str_in "notify:syscall.SIGTERM" facts;
      g_shutdown_cancels_first := call_before Lifecycle.shutdown_calls "p.cancel" "p.handlers.shutdown" && has_scall Lifecycle.shutdown_calls "" "p.cancel";
      g_shutdown_restores := has_scall Lifecycle.shutdown_calls "" "p.restoreTerminalState" &&
+                            (* nothing that touches the terminal follows it: only the release of the Wait callers *)
+                            (match index_of_call Lifecycle.shutdown_calls "p.restoreTerminalState" 0 with
+                             | Some i => forallb (fun c => sc_call c =? "finishOnce.Do:close(p.finished)") (skipn (S i) Lifecycle.shutdown_calls)
+                             | None => false end) &&
                             call_before Lifecycle.shutdown_calls "p.renderer.stop" "p.restoreTerminalState" &&
                             call_before Lifecycle.shutdown_calls "p.renderer.kill" "p.restoreTerminalState";
      g_killed_wraps := has_scall Lifecycle.run_calls "killed && err==nil" "fmt.Errorf" &&
-                       (Signals.run_killed_expr =? "p.ctx.Err() != nil || err != nil");
+                       (Signals.run_killed_expr =? "p.ctx.Err() != nil || err != nil") &&
+                       str_in "ErrProgramKilled" Signals.run_killed_errorf_args;
      g_quit_nil := match dispatch_end "QuitMsg" with Some (DReturn e) => e =? "nil" | _ => false end;
      g_int_err := match dispatch_end "InterruptMsg" with Some (DReturn e) => e =? "ErrInterrupted" | _ => false end;
      g_loop_ctx_nil := select_outcome "<-p.ctx.Done()" =? "return model, nil";
@@ -80,8 +87,12 @@ Definition guards_of_gen : guards :=
      g_release_stops_reader := call_before Lifecycle.release_terminal_calls "p.cancelReader.Cancel" "p.waitForReadLoop" &&
                                call_before Lifecycle.release_terminal_calls "p.waitForReadLoop" "p.restoreTerminalState" &&
                                has_scall Lifecycle.release_terminal_calls "" "p.waitForReadLoop";
-     g_release_stops_renderer := call_before Lifecycle.release_terminal_calls "p.renderer.stop" "p.restoreTerminalState";
-     g_restore_keeps_nosig := has_scall Lifecycle.restore_terminal_calls "!withoutSignals" "ignoreSignals=0"
+     g_release_stops_renderer := call_before Lifecycle.release_terminal_calls "p.renderer.stop" "p.restoreTerminalState" &&
+                                 has_scall Lifecycle.release_terminal_calls "renderer" "p.renderer.stop";
+     g_restore_keeps_nosig := has_scall Lifecycle.restore_terminal_calls "!withoutSignals" "ignoreSignals=0";
+     g_rz_guarded := all_guarded (recvs_on "listenForResize" "sig") && all_guarded (sends_on "checkResize" "p.errs") &&
+                     no_bare_send "checkResize" && no_bare_send "listenForResize" && send_is_guarded;
+     g_sig_stays := negb (str_in "returns-after-forward" facts)
   |}.
 
 (* the API entry points behave as the C13 statement needs *)
@@ -104,3 +115,35 @@ Definition rendezvous_channels : bool :=
 Definition nothing_unsupported : bool :=
   match ChanOps.unsupported, Lifecycle.unsupported, Dispatch.unsupported, Signals.unsupported with
   | [], [], [], [] => true | _, _, _, _ => false end.
+
+(* ---- the hand-mirrored functions: their bodies today equal the frozen reference shapes *)
+Definition shape_is (name body : string) : bool :=
+  match find (fun x => fst x =? name) Signals.shapes with Some (_, b) => b =? body | None => false end.
+Definition shapes_ok_for (names : list string) : bool :=
+  forallb (fun n => match find (fun x => fst x =? n) RefShapes.ref_shapes with
+                    | Some (_, b) => shape_is n b
+                    | None => false end) names.
+
+(* ---- every blocking channel operation without any alternative is one of the known ones (a new bare blocking
+   operation anywhere in the package is an unclassified change) *)
+Definition bare_blocking : list (string * string * bool) :=      (* function, channel, is a send *)
+  map (fun o => (co_func o, co_chan o, is_send o))
+      (filter (fun o => (is_send o || is_recv o) && match co_alts o with [] => true | _ => false end &&
+                        negb ((co_func o =? "Every") || (co_func o =? "Tick"))) ChanOps.chanops).
+Definition expected_bare_blocking : list (string * string * bool) :=
+  [("stop", "r.done", true); ("kill", "r.done", true); ("channelHandlers.shutdown", "ch", false);
+   ("Wait", "p.finished", false); ("suspendProcess", "c", false)].
+Definition triple_eqb (a b : string * string * bool) : bool :=
+  (fst (fst a) =? fst (fst b)) && (snd (fst a) =? snd (fst b)) && Bool.eqb (snd a) (snd b).
+Fixpoint list_eqb {A} (e : A -> A -> bool) (a b : list A) : bool :=
+  match a, b with [], [] => true | x :: a', y :: b' => e x y && list_eqb e a' b' | _, _ => false end.
+Definition bare_ops_ok : bool := list_eqb triple_eqb bare_blocking expected_bare_blocking.
+
+(* goroutines are started where the models expect them, and nowhere else in the runtime functions *)
+Definition expected_go_stmts : list (string * string) :=
+  [("exec", "p.Send"); ("exec", "p.Send"); ("exec", "p.Send"); ("start", "r.listen"); ("channelHandlers.shutdown", "func");
+   ("handleSignals", "func"); ("handleResize", "p.checkResize"); ("handleResize", "p.listenForResize"); ("handleCommands", "func");
+   ("handleCommands", "func"); ("eventLoop", "func"); ("eventLoop", "p.checkResize"); ("Run", "func"); ("RestoreTerminal", "p.Send");
+   ("RestoreTerminal", "p.checkResize"); ("suspend", "p.Send"); ("initCancelReader", "p.readLoop")].
+Definition go_stmts_ok : bool :=
+  list_eqb (fun a b => (fst a =? fst b) && (snd a =? snd b)) ChanOps.go_stmts expected_go_stmts.
